@@ -120,7 +120,12 @@ func c01One(key, nonce, pt, ad, want []byte, sd, od dstSpec, srcOff int) error {
 		return fmt.Errorf("Open of the RFC 8439 ciphertext failed: %v", oerr)
 	}
 	if len(opened) != len(od.prefix)+len(pt) || !bytes.Equal(opened[:len(od.prefix)], od.prefix) || !bytes.Equal(opened[len(od.prefix):], pt) {
-		return fmt.Errorf("Open returned %s (len %d), want dst||plaintext (len %d)", ev.Hex(opened), len(opened), len(od.prefix)+len(pt))
+		wantAll := append(clone(od.prefix), pt...)
+		i := 0
+		for i < len(opened) && i < len(wantAll) && opened[i] == wantAll[i] {
+			i++
+		}
+		return fmt.Errorf("Open returned %s (len %d), want dst||plaintext (len %d); first difference at byte %d (plaintext offset %d, key stream block %d)", ev.Hex(opened), len(opened), len(wantAll), i, i-len(od.prefix), 1+(i-len(od.prefix))/64)
 	}
 	if !bytes.Equal(ctb, want) || !bytes.Equal(adb, ad) || !bytes.Equal(nb, nonce) || !bytes.Equal(odst[:len(od.prefix)], od.prefix) {
 		return fmt.Errorf("Open modified its ciphertext, additional data, nonce or dst[:len(dst)] argument")
@@ -343,6 +348,75 @@ func TestC01(t *testing.T) {
 	})
 	if t.Failed() {
 		return
+	}
+	// counter-carry lengths: the block counter of the key stream (starting at 1) carries out of its low
+	// byte at plaintext offset 255*64 = 16320 and out of its low 16 bits at 65535*64 = 4194240; the assembly
+	// main loops have strides of 64..512 bytes, so lengths on both sides of boundary + stride are used
+	bigLens := []struct {
+		n   int
+		cls string
+	}{}
+	for _, d := range []int{-64, -1, 0, 1, 64, 128, 512, 1024} {
+		bigLens = append(bigLens, struct {
+			n   int
+			cls string
+		}{16320 + d, "pt=counter-carry:2^8-blocks(16KiB)"})
+	}
+	for _, d := range []int{-64, 0, 1, 64, 127} {
+		bigLens = append(bigLens, struct {
+			n   int
+			cls string
+		}{4194240 + d, "pt=counter-carry:2^16-blocks(4MiB),below-first-wrong-length"})
+	}
+	for _, d := range []int{128, 129, 192, 128 + 512, 128 + 1024, 128 + 512 + 64, 128 + 2048 + 17} {
+		bigLens = append(bigLens, struct {
+			n   int
+			cls string
+		}{4194240 + d, "pt=counter-carry:2^16-blocks(4MiB),beyond"})
+	}
+	shardK, _ := ev.Shard()
+	pick := map[int]bool{}
+	if ev.Thorough() {
+		for i := range bigLens {
+			if ev.Mine(i) {
+				pick[i] = true
+			}
+		}
+	} else {
+		// quick: three per shard, rotated by seed: one 16 KiB case, one just below and one beyond the 4 MiB carry
+		rot := int(ev.Seed()%1000) + shardK
+		pick[rot%8], pick[8+rot%5], pick[13+rot%7] = true, true, true
+	}
+	for i, bl := range bigLens {
+		if !pick[i] {
+			continue
+		}
+		nonceLen := []int{12, 24}[(i+shardK)%2]
+		seed := uint64(90000 + i)
+		key, nonce, pt, ad := pat(seed, 32), pat(seed+1, nonceLen), pat(seed+2, bl.n), pat(seed+3, []int{0, 13}[i%2])
+		want := refaead.Seal(key, nonce, pt, ad)
+		if sodium {
+			if sw, err := clibaead.AEADSeal(key, nonce, pt, ad); err != nil || !bytes.Equal(sw, want) {
+				c.Inconclusive(fmt.Sprintf("oracles disagree: libsodium vs RFC 8439 reference for |pt|=%d (err=%v)", bl.n, err))
+				t.Fatalf("VF-INCONCLUSIVE: property=C01 libsodium and the reference disagree at |pt|=%d", bl.n)
+			}
+		}
+		sd := dstSpec{prefix: pat(seed+4, i%3), spare: []int{0, bl.n + 16, bl.n + 16 + 9}[i%3], off: i % 32}
+		od := dstSpec{prefix: pat(seed+5, (i+1)%3), spare: []int{bl.n, 0, bl.n + 17}[i%3], off: (i * 3) % 32}
+		for _, p := range paths {
+			restore := p.use()
+			err := c01One(key, nonce, pt, ad, want, sd, od, (i*5)%32)
+			if err == nil {
+				err = c01InPlace(key, nonce, pt, ad, want, pat(seed+6, i%4), i%2 == 0, i%32)
+			}
+			restore()
+			if err != nil {
+				what := fmt.Sprintf("path=%s nonce=%d |pt|=%d (%s) |ad|=%d: %v (key=%x nonce=%x, pt=pat(%d))", p.name, nonceLen, bl.n, bl.cls, len(ad), err, key, nonce, seed+2)
+				c.Violation(what, "")
+				t.Fatalf("VF-VIOLATION: property=C01 %s", what)
+			}
+			c.Case(true, fmt.Sprintf("big|%s|%d|%d", p.name, nonceLen, bl.n), bl.cls, "big:path="+p.name)
+		}
 	}
 	// concurrent part: one AEAD object per construction shared by 8 goroutines
 	c01Concurrent(c, t, paths)
